@@ -51,7 +51,7 @@ def S(s):
 # ---------------------------------------------------------------- URL grammar
 SPECIAL = ["http", "https", "ws", "wss", "ftp"]
 NONSPECIAL = ["a", "non-spec", "mailto", "javascript", "blob", "git+ssh", "x.y", "data"]
-DOMAINS = ["example.com", "EXAMPLE.COM", "h", "a.b.c", "xn--bcher-kva.de", "b\u00fccher.de", "\u4f8b\u3048.jp", "a-b.c-d",
+DOMAINS = [".xn--a", "a..xn--a", "a..XN--A.b", ".xn--", "a..xn--", "..xn--a", "a...xn--a", ".xn--bcher-kva", "a..xn--bcher-kva.de", "example.com", "EXAMPLE.COM", "h", "a.b.c", "xn--bcher-kva.de", "b\u00fccher.de", "\u4f8b\u3048.jp", "a-b.c-d",
            "ab--c", "-a.b", "a-.b", "xn--", "xn--a", "1.2.3.4", "0x7f.1", "127.1", "1.2.3", "256.0.0.1", "0300.0250.0.1",
            "4294967295", "4294967296", "1.2.3.4.5", "1..2", "0x", "08", "09.1", "1.2.3.08", "a.1", "1.a", "a.0x1g",
            "[::1]", "[1:2:3:4:5:6:7:8]", "[::ffff:1.2.3.4]", "[1::2::3]", "[::1", "::1]", "[g::]", "[1:2:3:4:5:6:1.2.3.4]",
